@@ -664,7 +664,7 @@ CHAIN = {
                      "1-byte and 2-byte letter as response attribute key, event attribute key and event type, at execute / "
                      "instantiate / migrate / sudo / reply and inside a sub-message under every reply_on; compared: Ok/Err, the "
                      "emitted events (strings unchanged), state after"),
-    "C17": dict(cfgs=["routeacc", "routemix", "routefail", "stake"], focus="rlog,qroute,ok,panic,raw,post", always="qroute,ok",
+    "C17": dict(cfgs=["routeacc", "routemix", "routefail", "stockacc", "stockmix", "stockfail", "stake"], focus="rlog,qroute,ok,panic,raw,post", always="qroute,ok",
                 need=["module_called", "ok", "err"],
                 what="every message kind x origin (top-level, sub-message) x module configuration (all accepting, mixed, all "
                      "failing) x position (first / after a state change) x reply_on; compared: which module was called with which "
